@@ -151,4 +151,57 @@ theorem other_position_value_not_less (shares : Dec) (info : ValInfo) (a : Asset
     rw [if_neg]
     unfold Dec at *; omega
 
+/-- a validator's token value of an asset is monotone in the asset's staked total -/
+theorem valTokens_mono_in_total (T T' : Int) (hT' : 0 ≤ T') (h : T' ≤ T) (vs TVS : Dec) (hvs : 0 ≤ vs) (hTVS : 0 ≤ TVS) :
+    convertNewShareToDecToken (ofInt T') TVS vs ≤ convertNewShareToDecToken (ofInt T) TVS vs := by
+  have hle : ofInt T' ≤ ofInt T := by unfold ofInt; exact Int.mul_le_mul_of_nonneg_right h (by decide)
+  unfold convertNewShareToDecToken
+  split
+  · exact hle
+  · next hz =>
+    exact mul_mono_right _ _ _ (quo_nonneg vs TVS hvs (by unfold Dec at *; omega)) hle
+
+/-- C09: lowering an asset's staked total (what a take-rate deduction does — shares are not touched) never raises what
+    `GetDelegationTokens` reports for any position in that asset, on any validator -/
+theorem position_value_mono_in_total (shares : Dec) (info : ValInfo) (a : Asset) (T' : Int) (x : Int)
+    (hs : 0 ≤ shares) (htds : 0 ≤ totalDelSharesWithDenom info a.denom) (hvs : 0 ≤ valSharesWithDenom info a.denom)
+    (hTVS : 0 ≤ a.totalValShares) (hT' : 0 ≤ T') (hle : T' ≤ a.totalTokens)
+    (h : delegationTokensWithShares shares info a = .ok x) :
+    ∃ x', delegationTokensWithShares shares info { a with totalTokens := T' } = .ok x' ∧ x' ≤ x ∧ 0 ≤ x' := by
+  unfold delegationTokensWithShares totalTokensWithAsset newCoinAmt at *
+  simp only at h ⊢
+  have hv := valTokens_mono_in_total a.totalTokens T' hT' hle (valSharesWithDenom info a.denom) a.totalValShares hvs hTVS
+  have hv0 : 0 ≤ convertNewShareToDecToken (ofInt T') a.totalValShares (valSharesWithDenom info a.denom) := by
+    unfold convertNewShareToDecToken
+    split
+    · unfold ofInt; exact Int.mul_nonneg hT' (by decide)
+    · next hz =>
+      exact mul_nonneg _ _ (quo_nonneg _ _ hvs (by unfold Dec at *; omega)) (by unfold ofInt; exact Int.mul_nonneg hT' (by decide))
+  have hm := positionTokens_mono shares (totalDelSharesWithDenom info a.denom) _ _ hs htds hv0 hv
+  have hr : (0 : Int) ≤ rounder := by decide
+  have hpos : 0 ≤ truncateInt (convertNewShareToDecToken
+      (convertNewShareToDecToken (ofInt T') a.totalValShares (valSharesWithDenom info a.denom))
+      (totalDelSharesWithDenom info a.denom) shares + rounder) := by
+    apply truncateInt_nonneg
+    have : 0 ≤ convertNewShareToDecToken
+        (convertNewShareToDecToken (ofInt T') a.totalValShares (valSharesWithDenom info a.denom))
+        (totalDelSharesWithDenom info a.denom) shares := by
+      unfold convertNewShareToDecToken
+      split
+      · split
+        · unfold ofInt; exact Int.mul_nonneg hT' (by decide)
+        · next hz => exact mul_nonneg _ _ (quo_nonneg _ _ hvs (by unfold Dec at *; omega)) (by unfold ofInt; exact Int.mul_nonneg hT' (by decide))
+      · next hz0 =>
+        apply mul_nonneg _ _ (quo_nonneg _ _ hs (by unfold Dec at *; omega))
+        exact hv0
+    unfold Dec at *; omega
+  split at h
+  · cases h
+  · injection h with h
+    subst h
+    refine ⟨_, ?_, hm, hpos⟩
+    rw [if_neg]
+    omega
+
+
 end Alliance
